@@ -127,8 +127,10 @@ func (s *Session) OnEvent(event Event) {
 						case s.failed <- err:
 						default:
 						}
+					} else {
+						// Only a real pool is filed: the event handlers and Send() use whatever is stored for a host as a pool
+						s.pools.Store(host.Key(), pool)
 					}
-					s.pools.Store(host.Key(), pool)
 					wg.Done()
 				}(host)
 			}
